@@ -30,6 +30,11 @@ def scenario(rng, k, tier):
     else:
         L += [p.line(1), "create 1 1", "create 2 1", "create 3 1"]
         ssrcs = ssrcs[:1]
+    # a second sender with the same keys but WITHOUT RFC 6904 ids: its packets authenticate at the receiver, whose RFC 6904
+    # step then refuses extension profiles it does not know (parse_err AFTER authentication; only the key budget may move)
+    ra_ok = bool(p.enc_xtn)
+    if ra_ok:
+        L.append(p.line(3, ssrc_type=SSRC_ANY_OUT if wildcard else SSRC_SPECIFIC, enc_xtn=b""))
     seq = {s: rng.choice([1, 65530]) for s in ssrcs}
     goodlines = []
     def snapshot(tag):
@@ -75,6 +80,17 @@ def scenario(rng, k, tier):
             L.append(pkt_op("unprotect_rtcp" if r_rtcp else "unprotect", 2, ref, cap=400, mode=rng.choice([0, 1])))
             L.append("# R")
             snapshot("a")
+        if ra_ok and not rtcp and rng.random() < 0.5 and (not wildcard or (seq[s] >> 16) == 0):
+            L.append("dealloc 4"); L.append("create 4 3")
+            if seq[s] >> 16:
+                L.append(f"setroc 4 {H(s)} {H(seq[s] >> 16)}")
+            bad = rtp_packet(s, seq[s] & 0xffff, payload=rand_key(rng, 9), cc=rng.choice([0, 2]),
+                             ext=(rng.choice([0x1234, 0xABCD, 0xBEDF]), rand_key(rng, 4 * rng.choice([0, 1, 3]))))
+            L.append(pkt_op("protect", 4, bad, cap=len(bad) + 200, mki_index=mi)); ra = len(L)
+            snapshot("b")
+            L.append(pkt_op("unprotect", 2, f"@{ra:x}", cap=400, mode=rng.choice([0, 1])))
+            L.append("# RA")
+            snapshot("a")
         m = rng.choice([0, 1])
         L.append(pkt_op(uop, 2, f"@{a:x}", cap=len(pkt) + 200, mode=m)); x = len(L)
         L.append(pkt_op(uop, 3, f"@{a:x}", cap=len(pkt) + 200, mode=m)); y = len(L)
@@ -91,6 +107,12 @@ def monitor(script, c):
     out = {int(l.split()[0]): l.split() for l in c if l.strip()}
     snap = {}
     rejected_status = None
+    has_ra = any(l.startswith("# RA") for l in sl)
+    def mask(rows):
+        # peek rows: ... direction, key budget, key state: the budget is charged once a packet has authenticated, also when a
+        # later step (RFC 6904 parse) still refuses it; everything else the property names must not move
+        return [r[:8] + r[10:] if len(r) > 9 else r for r in rows]
+    ra_pending = False
     for i, l in enumerate(sl, 1):
         t = l.split()
         if len(t) < 2 or t[0] != "#":
@@ -103,6 +125,9 @@ def monitor(script, c):
             if t[2] == "b":
                 snap["b"] = cur
             else:
+                if ra_pending:
+                    cur, snap["b"] = mask(cur), mask(snap.get("b", []))
+                    ra_pending = False
                 if rejected_status not in (None, 0) and "b" in snap and cur != snap["b"]:
                     d = [(x, y) for x, y in zip(snap["b"], cur) if x != y][0]
                     what = "a rejected packet changed the receiving session"
@@ -114,6 +139,12 @@ def monitor(script, c):
                     hits.append({"what": what + f" (status {rejected_status:x})", "signature": sig,
                                  "detail": f"line {i}: before {str(d[0])[:160]} after {str(d[1])[:160]}"})
                     return hits
+        elif t[1] == "RA":
+            o = out.get(i - 1, [])
+            rejected_status = int(o[2], 16) if len(o) > 2 else None
+            ra_pending = True
+            if rejected_status == 0:
+                return hits
         elif t[1] == "R":
             o = out.get(i - 1, [])
             rejected_status = int(o[2], 16) if len(o) > 2 else None
@@ -129,6 +160,8 @@ def monitor(script, c):
                 return hits
         elif t[1] == "E":
             a, b = out.get(i - 2, []), out.get(i - 1, [])
+            if has_ra and len(a) > 11 and len(b) > 11:
+                a, b = a[:10] + a[12:], b[:10] + b[12:]
             if a[2:] != b[2:]:
                 hits.append({"what": "final state of the session that saw rejected packets differs from its twin",
                              "signature": "twin-final-state", "detail": f"{str(a[2:])[:150]} vs {str(b[2:])[:150]}"})
